@@ -862,6 +862,145 @@ func (w *Walker) newCellStatic(name string, t types.Type) *Cell {
 	return w.newCell(name, t, true)
 }
 
+// CF1: the addresses the constructor is given are the addresses the client and its driver hold. Every store into an
+// address-typed field (netip.AddrPort or one of the address types of package types) inside the constructor's
+// package stores a value that is a parameter, a captured variable or a field of one - never something computed
+// (a call, a choice between two values).
+func RuleCF1(r *Report, p *Program) {
+	r.Rule("CF1", "the bind, broadcast and listen addresses given to the constructor are stored as given into the client and its driver (no adjusted port, no substituted address)", 2)
+	up := p.SSAPkg("uhppote")
+	isAddr := func(t types.Type) bool {
+		tn := typeName(t)
+		return tn == "netip.AddrPort" || strings.HasSuffix(tn, "types.BindAddr") || strings.HasSuffix(tn, "types.BroadcastAddr") || strings.HasSuffix(tn, "types.ListenAddr")
+	}
+	var asGiven func(v ssa.Value, depth int) bool
+	asGiven = func(v ssa.Value, depth int) bool {
+		if depth > 8 {
+			return false
+		}
+		switch x := v.(type) {
+		case *ssa.Parameter, *ssa.FreeVar:
+			return true
+		case *ssa.Field:
+			return asGiven(x.X, depth+1)
+		case *ssa.FieldAddr:
+			return asGiven(x.X, depth+1)
+		case *ssa.UnOp:
+			return x.Op == token.MUL && asGiven(x.X, depth+1)
+		case *ssa.ChangeType:
+			return asGiven(x.X, depth+1)
+		case *ssa.Alloc:
+			// a local holding a copy of a parameter (go/ssa spills struct parameters): stored once
+			var st *ssa.Store
+			if x.Referrers() == nil {
+				return false
+			}
+			for _, ref := range *x.Referrers() {
+				if s, ok := ref.(*ssa.Store); ok && s.Addr == ssa.Value(x) {
+					if st != nil {
+						return false
+					}
+					st = s
+				}
+			}
+			return st != nil && asGiven(st.Val, depth+1)
+		}
+		return false
+	}
+	// construction: the constructor, the functions only it (or such functions) calls, and their function literals
+	ctor := p.Func("uhppote", "NewUHPPOTE")
+	memo := map[*ssa.Function]int{}
+	var partOfCtor func(f *ssa.Function, depth int) bool
+	partOfCtor = func(f *ssa.Function, depth int) bool {
+		if f == nil || depth > 4 {
+			return false
+		}
+		if f == ctor {
+			return true
+		}
+		if f.Parent() != nil {
+			return partOfCtor(f.Parent(), depth+1)
+		}
+		switch memo[f] {
+		case 1:
+			return true
+		case 2, 3:
+			return false
+		}
+		memo[f] = 3
+		if f.Object() == nil || f.Object().Exported() {
+			memo[f] = 2
+			return false
+		}
+		callers := 0
+		for _, g := range p.AllFuncs {
+			for _, b := range g.Blocks {
+				for _, in := range b.Instrs {
+					for _, op := range in.Operands(nil) {
+						if *op != ssa.Value(f) {
+							continue
+						}
+						ci, isCall := in.(ssa.CallInstruction)
+						if !isCall || ci.Common().Value != ssa.Value(f) || !partOfCtor(g, depth+1) {
+							memo[f] = 2
+							return false
+						}
+						callers++
+					}
+				}
+			}
+		}
+		if callers == 0 {
+			memo[f] = 2
+			return false
+		}
+		memo[f] = 1
+		return true
+	}
+	n := 0
+	for _, fn := range p.AllFuncs {
+		if pkgOf(fn) != up || ctor == nil || !partOfCtor(fn, 0) {
+			continue
+		}
+		for _, b := range fn.Blocks {
+			for _, in := range b.Instrs {
+				st, ok := in.(*ssa.Store)
+				if !ok {
+					continue
+				}
+				fa, ok := st.Addr.(*ssa.FieldAddr)
+				if !ok || !isAddr(st.Val.Type()) {
+					continue
+				}
+				pt, ok := fa.X.Type().Underlying().(*types.Pointer)
+				if !ok {
+					continue
+				}
+				nt, ok := types.Unalias(pt.Elem()).(*types.Named)
+				if !ok || nt.Obj().Pkg() == nil || nt.Obj().Pkg() != up.Pkg {
+					continue
+				}
+				stt, ok := nt.Underlying().(*types.Struct)
+				if !ok {
+					continue
+				}
+				// the client and its driver: structs of the package with a bind/listen/broadcast address field
+				fname := stt.Field(fa.Field).Name()
+				if c, isC := st.Val.(*ssa.Const); isC && c.Value == nil {
+					continue // the zero value of a literal's unset field
+				}
+				n++
+				key := nt.Obj().Name() + "." + fname + " in " + calleeName(fn)
+				if asGiven(st.Val, 0) {
+					r.OK("CF1", key, p.Pos(st.Pos()), "stored as given", true)
+				} else {
+					r.Bad("CF1", key, p.Pos(st.Pos()), "the address stored into "+nt.Obj().Name()+"."+fname+" is computed ("+st.Val.String()+"), not the value the constructor was given")
+				}
+			}
+		}
+	}
+}
+
 // ---- IM rules ----------------------------------------------------------------------------
 
 func RuleImmutable(r *Report, p *Program) {
